@@ -32,7 +32,7 @@ KF = "epr-keep-corrections:applied-to-virtual-qubit-0"
 KF_RSP_NV = "epr-recv-rsp:nv-multi-pair-target-preallocated"
 
 VARIANTS = ["recv_keep", "recv_keep_post", "recv_keep_seq", "recv_keep_with_info", "recv_rsp", "recv_rsp_with_info",
-            "create_keep", "create_keep_seq"]
+            "create_keep", "create_keep_seq", "recv_keep_retry", "recv_keep_seq_retry", "create_keep_retry"]
 OTHER_STATES = [np.array([math.cos(0.4), math.sin(0.4) * np.exp(0.7j)]), np.array([math.cos(1.1), math.sin(1.1) * np.exp(-1.3j)])]
 PAULI_FOR_BELL = {0: [], 1: ["x"], 2: ["x", "z"], 3: ["z"]}   # correction turning |b> into Phi+ (applied to one half)
 
@@ -56,6 +56,8 @@ def cases(ctx):
                                 continue
                             if var == "recv_keep_post" and hw == "nv":
                                 continue  # post_routine is documented for sequential=True only; on NV the combination is not staged
+                            if var.endswith("_retry") and (others > 0 and hw == "nv"):
+                                continue  # NV + retry + a qubit on ID 0: relocation inside the retry loop (C09's known finding)
                             if ctx.quick and n == 2 and rng.random() < 0.5:
                                 continue
                             k += 1
@@ -90,6 +92,12 @@ def _request(es, var, n, expect, post):
         return es.recv_rsp(n, expect_phi_plus=expect), None
     if var == "recv_rsp_with_info":
         return es.recv_rsp_with_info(n, expect_phi_plus=expect)
+    if var == "recv_keep_retry":
+        return es.recv_keep(n, expect_phi_plus=expect, min_fidelity_all_at_end=80, max_tries=3), None
+    if var == "recv_keep_seq_retry":
+        return es.recv_keep(n, post_routine=post, sequential=True, expect_phi_plus=expect, min_fidelity_all_at_end=80, max_tries=3), None
+    if var == "create_keep_retry":
+        return es.create_keep(n, min_fidelity_all_at_end=80, max_tries=3), None
     if var == "create_keep":
         return es.create_keep(n), None
     if var == "create_keep_seq":
@@ -104,15 +112,24 @@ def _keep(ctx, case):
     n = len(bells)
     role = "create" if var.startswith("create") else "recv"
     tp = "R" if "rsp" in var else "K"
-    sequential = var.endswith("_seq")
+    sequential = "_seq" in var
+    retry = var.endswith("_retry")
     nontrivial = any(b != 0 for b in bells)
     budget = n + others + 1 if not sequential else others + 2
     es = EPRSocket("bob")
-    req = PlannedRequest(role, tp, n, bells=bells)
-    link = LinkModel([req])
+    if retry:
+        # first attempt is reported too slow (and delivers the *rotated* Bell states), the second one is in time
+        first = PlannedRequest(role, tp, n, bells=[(b + 1) % 4 for b in bells],
+                               fields=lambda k, name: 60000 if name == "goodness" else None)
+        req = PlannedRequest(role, tp, n, bells=bells, fields=lambda k, name: 100 if name == "goodness" else None)
+        link = LinkModel([first, req])
+    else:
+        req = PlannedRequest(role, tp, n, bells=bells)
+        link = LinkModel([req])
     pipe = Pipe(epr_sockets=[es], link=link, max_qubits=max(budget, 2), hardware=hw)
     ex = pipe.ex
     seq_results = []
+    seen_meas = []
 
     def post(conn, q, pair):
         # sequential / post-routine use: nothing is done to the qubit; the state is inspected by the harness when
@@ -136,6 +153,10 @@ def _keep(ctx, case):
 
                 def spy(subroutine_id, q_address):
                     lab = ("p", ex._phys(subroutine_id, q_address))
+                    seen_meas.append(lab)
+                    # pairs of a discarded first attempt are measured away too: only the accepted attempt's pairs count
+                    if retry and len(seen_meas) <= n:
+                        return orig(subroutine_id=subroutine_id, q_address=q_address)
                     i = len(seq_results)
                     if i < len(req.partners):
                         st = ex.sv.pair_state(lab, req.partners[i])
@@ -180,7 +201,8 @@ def _keep(ctx, case):
                 if st is None or rq.fidelity(st, OTHER_STATES[j]) < 1 - 1e-9:
                     spect_bad.append(j)
             if bad or spect_bad:
-                key = KF if _matches_known_mechanism(pipe, req, qubits, spectators, bells, hw, want_corrected, sequential, var, states) else None
+                key = KF if _matches_known_mechanism(pipe, req, qubits, spectators, bells, hw, want_corrected, sequential, var, states,
+                                                        first_bells=[(b + 1) % 4 for b in bells] if retry else ()) else None
                 fid = [None if s is None else round(rq.fidelity(s, rq.BELL[0]), 6) for s in states]
                 ctx.fail(case, f"{var} x{n} bells={bells} hw={hw} others={others} expect_phi_plus={expect}: pairs {bad} are not "
                                f"{'Phi+' if want_corrected else 'the delivered Bell state'} with their partner (Phi+ fidelities {fid})"
@@ -212,7 +234,7 @@ class _Done(Exception):
     pass
 
 
-def _matches_known_mechanism(pipe, req, qubits, spectators, bells, hw, want_corrected, sequential, var, states_seen):
+def _matches_known_mechanism(pipe, req, qubits, spectators, bells, hw, want_corrected, sequential, var, states_seen, first_bells=()):
     """Prediction of the one known mechanism: on generic hardware, receive role, all-pairs-at-once corrections, pair i's
     Pauli is applied to virtual qubit 0 instead of pair i's qubit. The observed global state must EQUAL that prediction."""
     if hw != "generic" or not want_corrected:
@@ -227,23 +249,32 @@ def _matches_known_mechanism(pipe, req, qubits, spectators, bells, hw, want_corr
     for j, q in enumerate(spectators):
         sv.add(pipe.label_of(q), OTHER_STATES[j])
     if sequential:
-        return _matches_known_sequential(pipe, req, bells, spectators, states_seen)
+        return _matches_known_sequential(pipe, req, bells, spectators, states_seen, first_bells)
     for i, q in enumerate(qubits):
         sv.add_pair(pipe.label_of(q), req.partners[i], rq.BELL[bells[i]])
     v0 = ("p", um[0])
     if not sv.has(v0):
         return False
-    for b in bells:
+    if first_bells and not any(q.qubit_id == 0 for q in spectators):
+        first_bells = ()   # the Paulis of a discarded attempt only matter when they hit a qubit that survives (a spectator on ID 0)
+    for b in list(first_bells) + list(bells):
         for g in PAULI_FOR_BELL[b]:
             sv.apply1(v0, rq.X if g == "x" else rq.Z)
+    have = ex.sv.copy()
+    for lab in list(have.labels):
+        if lab not in sv.labels and lab[0] == "partner":
+            # partner of a pair whose local half was freed by a discarded attempt: collapsed, unentangled
+            if have.single_state(lab) is None:
+                return False
+            have.remove(lab, 0 if have.prob1(lab) < 0.5 else 1)
     try:
-        got = ex.sv.vector(sv.labels)
+        got = have.vector(sv.labels)
     except AssertionError:
         return False
     return rq.eq_up_to_phase(got, sv.vector(sv.labels), 1e-8)
 
 
-def _matches_known_sequential(pipe, req, bells, spectators, states_seen):
+def _matches_known_sequential(pipe, req, bells, spectators, states_seen, first_bells=()):
     """Sequential use: every pair arrives on the same virtual ID v != 0 (ID 0 is held by a spectator), the pair's Pauli
     goes to virtual 0. Prediction: each pair was handed to the post routine exactly in its delivered Bell state, the
     spectator on ID 0 carries the product of all the Paulis, every other spectator is untouched."""
@@ -262,7 +293,7 @@ def _matches_known_sequential(pipe, req, bells, spectators, states_seen):
             return False
         want = OTHER_STATES[j]
         if q.qubit_id == 0:
-            for b in bells:
+            for b in list(first_bells) + list(bells):
                 for g in PAULI_FOR_BELL[b]:
                     want = (rq.X if g == "x" else rq.Z) @ want
         if rq.fidelity(st, want) < 1 - 1e-9:
